@@ -4,7 +4,8 @@ import vf
 
 def main():
     vf.build_lib("asan")
-    names = sorted(os.path.basename(p)[:-4] for p in glob.glob(os.path.join(vf.VERIF, "harness", "*.cpp")))
+    parts = {src[:-4] for src, _ in vf.PARTS.values()}   # part sources are compiled by the harness they belong to
+    names = sorted(n for n in (os.path.basename(p)[:-4] for p in glob.glob(os.path.join(vf.VERIF, "harness", "*.cpp"))) if n not in parts)
     errs = []
     def b(n):
         try:
